@@ -31,7 +31,7 @@ MANIFEST = {
     "ref": "6 C08",
 }
 RULE = ("adapter stacks: every well-formed stack of depth <= 2 over the five target flavours and TestByTestResult "
-        "(MultiTestResult with one or two members), random stacks of depth 3; histories of 0-4 bracketed tests "
+        "(MultiTestResult with one or two members), random stacks of depth 3; histories of 0-6 bracketed tests "
         "(TestCase / PlaceHolder / ErrorHolder) with all six outcomes given as exc_info/reason or as details (text, "
         "blank and binary attachments, empty dict; names drawn from 'traceback', 'reason' and names that extend or "
         "resemble them: traceback-1, traceback-1-2, traceback-2, tracebackx, trace, Traceback, reason-1, reaso, plus "
